@@ -1303,6 +1303,8 @@ class Interp:
             return Opaque("formatted-string")
         if isinstance(a, (str, Opaque)) and isinstance(b, (str, Opaque)) and op == "Add":
             return Opaque("formatted-string")
+        if op == "Add" and type(a).__name__ == "SBytes" and type(b).__name__ == "SBytes":
+            return type(a)(a.chunks + b.chunks)
         if isinstance(a, list) and isinstance(b, list) and op == "Add":
             return a + b
         if isinstance(a, tuple) and isinstance(b, tuple) and op == "Add":
@@ -1368,6 +1370,10 @@ class Interp:
         if V.is_num(a) and V.is_num(b):
             return A.scalar_compare(op, a, b)
         if isinstance(a, str) and isinstance(b, str):
+            return {"Lt": a < b, "LtE": a <= b, "Gt": a > b, "GtE": a >= b}[op]
+        if isinstance(a, (set, frozenset)) and isinstance(b, (set, frozenset)) \
+                and all(isinstance(x, (str, int, bool)) for x in a | b):
+            # subset / superset tests of concrete sets
             return {"Lt": a < b, "LtE": a <= b, "Gt": a > b, "GtE": a >= b}[op]
         raise Unsupported(f"compare {op} on {a!r}, {b!r}")
 
@@ -1438,7 +1444,12 @@ class Interp:
 
     def ev_ListComp(self, node, env, mod):
         out = []
-        self._comp(node.generators, 0, env, mod, lambda e: out.append(self.eval(node.elt, e, mod)))
+
+        def emit(e, guard=None):
+            v = self.eval(node.elt, e, mod)
+            # an element that exists only under a presence condition stays guarded (as in list(d.keys()))
+            out.append(v if guard is None else ("__guarded__", guard, v))
+        self._comp(node.generators, 0, env, mod, emit, guarded_ok=True)
         return out
 
     def ev_GeneratorExp(self, node, env, mod):
@@ -1454,18 +1465,31 @@ class Interp:
         self._comp(node.generators, 0, env, mod, add)
         return d
 
-    def _comp(self, gens, i, env, mod, emit):
+    def _comp(self, gens, i, env, mod, emit, guarded_ok=False, guard=None):
         if i == len(gens):
-            emit(env)
+            if guard is not None:
+                emit(env, guard)
+            else:
+                emit(env)
             return
         g = gens[i]
         for item in self.iterate(self.eval(g.iter, env, mod)):
+            g2 = guard
             if isinstance(item, tuple) and len(item) == 3 and item[0] == "__guarded__":
-                raise Unsupported("comprehension over symbolic-presence dict")
+                if not guarded_ok or len(gens) != 1:
+                    raise Unsupported("comprehension over symbolic-presence dict")
+                _, g2, item = item
             e2 = Env(env)
             self.assign(g.target, item, e2, mod)
-            if all(self.truth(self.eval(c, e2, mod)) for c in g.ifs):
-                self._comp(gens, i + 1, e2, mod, emit)
+            if g2 is not None:
+                self.guards.append(g2)
+            try:
+                keep = all(self.truth(self.eval(c, e2, mod)) for c in g.ifs)
+                if keep:
+                    self._comp(gens, i + 1, e2, mod, emit, guarded_ok, g2)
+            finally:
+                if g2 is not None:
+                    self.guards.pop()
 
     def ev_Call(self, node, env, mod):
         # super() support
